@@ -354,6 +354,17 @@ def traced(spec: dict) -> dict:
     swi = sys.getswitchinterval()
     if spec.get('switchinterval'):
         sys.setswitchinterval(spec['switchinterval'])      # thread switches at (almost) every bytecode boundary
+    rc_dir = None
+    saved_env = (os.getcwd(), os.environ.get('HOME'))
+    if spec.get('pdbrc') is not None:
+        # the user's own debugger start-up files (~/.pdbrc, ./.pdbrc) in the child's home and working directory: they are the user's settings for
+        # the command-line pdb, not commands for Nextline's per-thread/per-task instances
+        import tempfile
+        rc_dir = tempfile.TemporaryDirectory(prefix='nlv-pdbrc-')
+        with open(os.path.join(rc_dir.name, '.pdbrc'), 'w') as fh:
+            fh.write(spec['pdbrc'])
+        os.chdir(rc_dir.name)
+        os.environ['HOME'] = rc_dir.name
     try:
         r = run(RunArg(run_no=spec.get('run_no', 1), statement=make_statement(spec), filename='<string>',
                        trace_threads=spec.get('trace_threads', True), trace_modules=spec.get('trace_modules', False)), qi, qo)
@@ -361,6 +372,13 @@ def traced(spec: dict) -> dict:
         err = f'{type(e).__name__}: {e}'
     finally:
         sys.setswitchinterval(swi)
+        if rc_dir is not None:
+            os.chdir(saved_env[0])
+            if saved_env[1] is None:
+                os.environ.pop('HOME', None)
+            else:
+                os.environ['HOME'] = saved_env[1]
+            rc_dir.cleanup()
         # threads the script left behind that are not traced (thread tracing off): the child process would wait for them at exit,
         # and what they print still goes to its standard output
         _join_new_threads(before_threads)
